@@ -40,8 +40,12 @@ def run(eng: Engine, ck: Check):
     # __getstate__: copies __dict__, deletes exactly the unpickable, replaces state by VALUE
     src = unparse(gst.node)
     loops = [n for n in walk_local(gst.node) if isinstance(n, ast.For) and '_UNPICKABLE_FIELDS' in unparse(n.iter)]
-    dels = [n for n in walk_local(gst.node) if isinstance(n, ast.Delete)]
-    ok = (phas(gst.node, 'self.__dict__.copy()') or phas(gst.node, 'dict(self.__dict__)')) and len(loops) == 1 and len(dels) == 1 and any(a is loops[0] for a in ancestors(dels[0]))
+    cp = pfind(gst.node, '$d = self.__dict__.copy()') + pfind(gst.node, '$d = dict(self.__dict__)')
+    OS = cp[0][1]['d'] if len(cp) == 1 else 'obj_state'
+    # removals of a key of the copy (del / pop) that are not the documented `state` handling: exactly the one in the loop over the unpickable names
+    dels = [(n, k_) for n, k_ in key_removals(gst.node, OS) if not isinstance(k_, ast.Constant)]
+    ok = len(cp) == 1 and len(loops) == 1 and len(dels) == 1 and any(a is loops[0] for a in ancestors(dels[0][0])) and unparse(dels[0][1]) == unparse(loops[0].target) and \
+        not [1 for n, k_ in key_removals(gst.node, OS) if isinstance(k_, ast.Constant) and k_.value not in unp]
     ck.ob('R-C17-FIELDS', gst, gst.node, '__getstate__ persists a copy of every attribute except the unpickable ones', ok, '', construct='getstate copies all but unpickable')
     sv = [n for n in walk_local(gst.node) if isinstance(n, ast.Assign) and "['state']" in unparse(n.targets[0])]
     ok = len(sv) == 1 and unparse(sv[0].value).endswith("['state'].VALUE")
@@ -92,7 +96,8 @@ def run(eng: Engine, ck: Check):
     ck.ob('R-C17-FIELDS', ifn, ifn.node, 'init_from_state instantiates the matching subclass for the given transfer and raises for an unknown value', ok, '',
           construct='init_from_state')
     tss = eng.func(TSTATE, 'TransferState.__setstate__')
-    ok = any(not eng.guards_at(tss, x) for x in calls_on(tss.node, '_wrap_lock')) and any(call_name(x) == 'update' for x in calls_in(tss.node))
+    from . import defs as _defs
+    ok = _defs.state_lock_wrapping(eng, ck, 'R-C17-FIELDS', only=('__init__', '__setstate__'))['__setstate__'] and any(call_name(x) == 'update' for x in calls_in(tss.node))
     ck.ob('R-C17-FIELDS', tss, tss.node, 'a loaded state object gets its methods wrapped with the state lock again', ok, '', construct='state setstate wraps')
     eq = eng.func(TMODEL, 'Transfer.__eq__')
     eq_fields = sorted({n.attr for n in walk_local(eq.node) if isinstance(n, ast.Attribute) and unparse(n.value) == 'self'})
@@ -128,16 +133,30 @@ def run(eng: Engine, ck: Check):
             a = cmp_atom(r.value)
             if a:
                 proc = enum_members_in(a[2])
+        def admitted_by(e: ast.AST, pol: bool) -> Optional[set]:
+            """the states a guard atom admits: is_transferring() / is_processing() taken true, or `state.VALUE ==/in <members>` (through aliases)"""
+            if not pol:
+                return None
+            if isinstance(e, ast.Call) and call_name(e) == 'is_transferring':
+                return {'DOWNLOADING', 'UPLOADING'}
+            if isinstance(e, ast.Call) and call_name(e) == 'is_processing':
+                return {'DOWNLOADING', 'UPLOADING', 'INITIALIZING'}
+            x = expand_aliases(rc, e)
+            a = cmp_atom(x)
+            if a and a[0] in ('eq', 'in', 'is') and mentions_attr(a[1], 'state') and enum_members_in(a[2]):
+                return set(enum_members_in(a[2]))
+            return None
         covered = set()
         for n in c.nodes:
-            if n.kind == 'assume' and n.polarity:
-                s = unparse(n.ast)
-                if 'INITIALIZING' in s and 'state' in s:
-                    q = [x for x in calls_in(lp) if call_name(x) == 'queue' and any(a2 is n for _, _, a2 in eng.guards_at(rc, x))]
-                    if q:
-                        covered.add('INITIALIZING')
-                if 'is_transferring()' in s:
-                    covered |= {'DOWNLOADING', 'UPLOADING'}
+            if n.kind == 'assume':
+                for e_, pol_ in split_conj(n.ast, n.polarity):
+                    adm = admitted_by(e_, pol_)
+                    if adm == {'INITIALIZING'}:
+                        q = [x for x in calls_in(lp) if call_name(x) == 'queue' and any(a2 is n for _, _, a2 in eng.guards_at(rc, x))]
+                        if q:
+                            covered.add('INITIALIZING')
+                    elif adm == {'DOWNLOADING', 'UPLOADING'}:
+                        covered |= adm
         ck.ob('R-C17-REPAIR', rc, lp, f'every in-progress state {sorted(proc)} has a repair branch', proc <= covered and bool(proc), f'covered {sorted(covered)}',
               construct='repair covers processing states')
         it = eng.func(TMODEL, 'Transfer.is_transferring')
@@ -152,18 +171,18 @@ def run(eng: Engine, ck: Check):
         is_transfered_definition(eng, ck, 'R-C17-REPAIR')
         inst = [x for x in calls_in(lp) if call_name(x) == 'init_from_state' and len(x.args) >= 2]
         SV = unparse(inst[0].args[0]) if len(inst) == 1 else 'state'
-        assigns = [(n, enum_member(n.value)) for n in walk_local(lp) if isinstance(n, ast.Assign) and unparse(n.targets[0]) == SV and enum_member(n.value)]
         row = {}
-        for n, mem in assigns:
-            for e, pol, _ in eng.guards_at(rc, n):
-                if call_name(e) == 'is_transfered':
-                    row[pol] = mem
+        for n in [n for n in walk_local(lp) if isinstance(n, ast.Assign) and unparse(n.targets[0]) == SV]:
+            for conds, leaf in cond_values(eng, rc, n):
+                for e, pol in conds:
+                    if call_name(e) == 'is_transfered' and enum_member(leaf):
+                        row[pol] = enum_member(leaf)
         ck.ob('R-C17-REPAIR', rc, lp, 'a transfer caught transferring becomes COMPLETE iff all bytes had arrived, else INCOMPLETE', row == {True: 'COMPLETE', False: 'INCOMPLETE'},
               f'{row}', construct='repair transferring')
         st_store = [s for f, s, v in eng.stores_to_attr('state', [rc])]
         ok = len(st_store) == 1 and len(inst) == 1 and inst[0] in list(ast.walk(st_store[0].value)) and unparse(inst[0].args[1]) == tv and \
             isinstance(st_store[0].targets[0], ast.Attribute) and unparse(st_store[0].targets[0].value) == tv and \
-            any(pol and call_name(e) == 'is_transferring' for e, pol, _ in eng.guards_at(rc, st_store[0]))
+            any(admitted_by(e, pol) == {'DOWNLOADING', 'UPLOADING'} for e, pol, _ in eng.guards_at(rc, st_store[0]))
         ck.ob('R-C17-REPAIR', rc, lp, 'the repaired state object is installed on the transfer', ok, '', construct='repair installs state')
     # repairs that go through the state machine must be defined for EVERY state the guard admits (an undefined operation is a silent refusal)
     for x in calls_in(rc.node):
@@ -171,12 +190,9 @@ def run(eng: Engine, ck: Check):
                 ('queue', 'complete', 'incomplete', 'fail', 'abort', 'pause', 'initialize', 'start_transferring'):
             admitted = None
             for e, pol, _ in eng.guards_at(rc, x):
-                if pol and isinstance(e, ast.Call) and call_name(e) == 'is_transferring':
-                    admitted = {'DOWNLOADING', 'UPLOADING'}
-                elif pol and isinstance(e, ast.Call) and call_name(e) == 'is_processing':
-                    admitted = {'DOWNLOADING', 'UPLOADING', 'INITIALIZING'}
-                elif pol and mentions_attr(e, 'state') and enum_members_in(e):
-                    admitted = set(enum_members_in(e))
+                adm_ = admitted_by(e, pol) if loops else None
+                if adm_ is not None:
+                    admitted = adm_
             if admitted is None:
                 admitted = set(states)
             undefined = sorted(v for v in admitted if v in states and x.func.attr not in states[v].methods)
@@ -193,6 +209,9 @@ def run(eng: Engine, ck: Check):
     ld = eng.func(TM, 'TransferManager.load_data')
     ck.ob('R-C17-REPAIR', ld, ld.node, 'load_data reads the cache', any(not eng.guards_at(ld, x) for x in calls_on(ld.node, 'read_cache')), '', construct='load_data reads')
 
+    from . import defs
+    defs.transfer_identity(eng, ck, 'R-C17-REPAIR')
+    defs.transfer_state_sets(eng, ck, 'R-C17-REPAIR', which=('is_processing',))
     # ---- R-C17-WRITE
     w = eng.func(TCACHE, 'TransferShelveCache.write')
     ck.visited(w)
@@ -209,7 +228,24 @@ def run(eng: Engine, ck: Check):
     ck.ob('R-C17-WRITE', w, w.node, 'write() stores every current transfer', ok, '', construct='write stores all')
     pops = [x for x in calls_in(w.node) if call_name(x) in ('pop',) and unparse(x.func.value) == DB] + \
            [n for n in walk_local(w.node) if isinstance(n, ast.Delete) and mentions_name(n, DB)]
-    stale = [x for x in calls_in(w.node) if call_name(x) == 'append' and any((not pol) and call_name(e) == 'any' for e, pol, _ in eng.guards_at(w, x))]
+    # the keys popped are collected from the shelf's items under `not any(<current transfer> == <stored record>)`
+    stale = []
+    for x in pops:
+        lp_ = next((a_ for a_ in ancestors(x) if isinstance(a_, ast.For)), None)
+        if lp_ is None or not isinstance(lp_.iter, ast.Name):
+            continue
+        for cnd in collected(eng, w, lp_.iter.id):
+            it_ok = cnd['iter'] is not None and unparse(cnd['iter']) in (f'{DB}.items()', f'{DB}.keys()', DB)
+            neg_any = [e for e, pol in cnd['conds'] if (not pol) and call_name(e) == 'any']
+            others = [e for e, pol in cnd['conds'] if not ((not pol) and call_name(e) == 'any')]
+            cmp_ok = False
+            for e in neg_any:
+                g_ = e.args[0] if e.args and isinstance(e.args[0], (ast.GeneratorExp, ast.ListComp)) else None
+                a_ = cmp_atom(g_.elt) if g_ is not None else None
+                if a_ and a_[0] == 'eq' and len(g_.generators) == 1 and unparse(g_.generators[0].iter) == w.params[1] and not g_.generators[0].ifs:
+                    cmp_ok = True
+            if it_ok and cmp_ok and not others:
+                stale.append(cnd)
     ck.ob('R-C17-WRITE', w, w.node, 'write() deletes every stored record that equals no current transfer (removed transfers are gone)', bool(pops) and len(stale) == 1, '',
           construct='write drops stale')
     stop = eng.func('client.py', 'SoulSeekClient.stop')
@@ -226,8 +262,19 @@ def run(eng: Engine, ck: Check):
     wc = eng.func(TM, 'TransferManager.write_cache')
     ck.ob('R-C17-WRITE', wc, wc.node, 'write_cache passes the full transfer list', phas(wc.node, 'self.cache.write(self._transfers)'), '', construct='write_cache list')
     r = eng.func(TCACHE, 'TransferShelveCache.read')
-    ok = any(isinstance(n, ast.For) and unparse(n.iter) in (f'{shelf_name(r)}.items()', f'{shelf_name(r)}.values()') for n in walk_local(r.node)) and len(calls_on(r.node, 'append')) == 1 and \
-        not eng.guards_at(r, calls_on(r.node, 'append')[0])
+    rrets = [n for n in walk_local(r.node) if isinstance(n, ast.Return) and n.value is not None]
+    ok = len(rrets) == 1
+    if ok:
+        rdb = shelf_name(r)
+        rv = rrets[0].value
+        if isinstance(rv, ast.Name):
+            got = collected(eng, r, rv.id)
+            ok = len(got) == 1 and got[0]['iter'] is not None and unparse(got[0]['iter']) in (f'{rdb}.items()', f'{rdb}.values()') and not got[0]['conds'] and \
+                isinstance(got[0]['elt'], ast.Name) and got[0]['elt'].id in names_in(got[0]['target']) and \
+                (unparse(got[0]['iter']).endswith('.values()') or (isinstance(got[0]['target'], ast.Tuple) and len(got[0]['target'].elts) == 2 and
+                                                                 unparse(got[0]['target'].elts[1]) == got[0]['elt'].id))
+        else:
+            ok = unparse(rv) in (f'list({rdb}.values())', f'[*{rdb}.values()]')
     ck.ob('R-C17-WRITE', r, r.node, 'read() returns every stored record', ok, '', construct='read all')
 
     # ---- R-C17-KEY
